@@ -86,6 +86,13 @@ def run(tier, seed):
     for r, (d, e) in enumerate(items):
         pct_cases.append(('pct I%d I%d %s' % (d, e, core.enc(values[(0, r)])), outs[r], {'formula': '=A%d%%' % (r + 1), 'A': dec_text(d, e)}))
     chk.judge('percent-cells', pct_cases)
+    # the same decimals written as literals in the formula, and supplied as overrides of a cell holding something else
+    outs = realcode.eval_formulas(['=%s%%' % dec_text(d, e) for d, e in items], {})
+    chk.judge('percent-decimal-literals', [('pct I%d I%d %s' % (d, e, core.enc(values[(0, r)])), outs[r], {'formula': '=%s%%' % dec_text(d, e)})
+                                           for r, (d, e) in enumerate(items)])
+    outs = realcode.eval_formulas(['=A%d%%' % (r + 1) for r in range(len(items))], {(0, r): 1 for r in range(len(items))}, overrides=values)
+    chk.judge('percent-overrides', [('pct I%d I%d %s' % (d, e, core.enc(values[(0, r)])), outs[r], {'formula': '=A%d%%' % (r + 1), 'override A': dec_text(d, e)})
+                                    for r, (d, e) in enumerate(items)])
     ints = [0, 1, 5, 7, 15, 50, 99, 100, 12345, 33, 1234567]
     outs = realcode.eval_formulas(['=%d%%' % z for z in ints], {})
     chk.judge('percent-literals', [('pct I%d' % z, o, {'formula': '=%d%%' % z}) for z, o in zip(ints, outs)])
